@@ -315,3 +315,80 @@ def brute_check(spec, keep):
         if len(prov) + len(merged) + len(vanished) != ref.n_nodes(spec):
             probs.append("induced_prov(suppress=%s): provenance does not partition the source nodes" % sup)
     return probs
+
+
+# --------------------------------------------------------------------------------------
+# input classes added after the audit: leaves without a taxon, truthiness of predicates,
+# boundary edge lengths
+# --------------------------------------------------------------------------------------
+def leafview(spec):
+    """The spec with every taxon-less leaf given its (unique) label as stand-in taxon, so that the
+    leaf-taxon based oracles of vf.ref (clades, splits, paths, induced) see such leaves like any
+    other leaf.  name_of() is unchanged by the view; idempotent; returns spec itself when there is
+    nothing to do."""
+    if all(n[0] is not None for n in ref.leaves(spec)):
+        return spec
+    s = ref.copy(spec)
+    for n in ref.leaves(s):
+        if n[0] is None:
+            n[0] = n[1]
+    return s
+
+
+def taxonless_leaf_names(spec):
+    return set(n[1] for n in ref.leaves(spec) if n[0] is None)
+
+
+def internal_taxon_names(spec):
+    return set(n[0] for n in ref.preorder(spec) if n[3] and n[0] is not None)
+
+
+class _Thing(object):
+    """a plain object: truthy by default."""
+
+
+TRUTHY = (True, 1, "x", _Thing(), (0,), 2.5)
+FALSY = (False, None, 0, "", (), 0.0)
+N_COSTUMES = len(TRUTHY) * len(FALSY)
+
+
+def costumed(fn, k):
+    """fn (-> bool) dressed so that it answers with the k-th (truthy, falsy) pair of objects instead of
+    True / False -- the `lambda nd: nd.taxon and ...` idiom.  k = 0 is the strict-bool predicate."""
+    k %= N_COSTUMES
+    if k == 0:
+        return fn
+    yes = TRUTHY[k % len(TRUTHY)]
+    no = FALSY[k // len(TRUTHY)]
+
+    def dressed(nd):
+        return yes if fn(nd) else no
+    return dressed
+
+
+BOUNDARY_LENGTHS = (None, 0, 0.0, 1, 0.5, 2, None, 0)
+
+
+def boundary_lengths(spec, rng):
+    """every edge (the root's too): missing / int zero / float zero / int / dyadic float, so that a unary
+    node of length 0 meets a child without length (and vice versa), 0.0 meets 0, ints meet floats."""
+    for n in ref.preorder(spec):
+        n[2] = rng.choice(BOUNDARY_LENGTHS)
+    return spec
+
+
+def float_lengths(spec):
+    """copy with every length as float (agreement signatures: 1 and 1.0 are the same length)."""
+    s = ref.copy(spec)
+    for n in ref.preorder(s):
+        if n[2] is not None:
+            n[2] = float(n[2])
+    return s
+
+
+def parent_names(spec):
+    out = {name_of(spec): None}
+    for n in ref.preorder(spec):
+        for c in n[3]:
+            out[name_of(c)] = name_of(n)
+    return out
